@@ -97,7 +97,9 @@ def parse_impl(text):
     from qmi.data.dataset import _parse_attribute_value
     try:
         r = _parse_attribute_value(text)
-    except ValueError:
+    except (ValueError, OverflowError):
+        # a refusal: chr() of an escape beyond the C int range raises OverflowError instead of ValueError; such text
+        # is never produced by repr() and the property says nothing about the class of the refusal
         return ("err",)
     except Exception as e:  # noqa
         return ("weird", type(e).__name__)
@@ -504,7 +506,8 @@ HAND_TEXTS = ["", "+", "-", "--1", "+5", "-0", "007", "1_0", " 1", "1 ", "١٢",
               "''", "'", '"', '""', "'\\777'", "nan", "infinity", "1_0.0", "'\\N{DASH}'", "'\\U0001f600'", "'\\U000e0001'",
               "'\\xe9\\u20ac'", "'\\\\n'", "'\\\\\\n'", "\"it's\"", "'say \"x\"'", "'\\a\\b\\f\\v'", "12\n", "\n", "'a\nb'",
               "'\\\n'", "1.5", "-1e-5", "inf", "-inf", "1e400", ".", "e5", "1e", "0b1", "1j", "None", "np.float64(1.5)",
-              "'\\08'", "'\\400'", "'\\x41\\X41'", "'\\uD800'", "'\\u00e9x'", "'\\U0001F600'", "'\\U0001f60'", "'\\U0001f60g0'"]
+              "'\\08'", "'\\400'", "'\\x41\\X41'", "'\\uD800'", "'\\u00e9x'", "'\\U0001F600'", "'\\U0001f60'", "'\\U0001f60g0'",
+              "'Z\\Ub000e0001\\\\x41~\\uff:f'", "'\\U00110000'", "'\\Uffffffff'"]
 
 
 def do_parse_cases(cx, nrand):
